@@ -16,21 +16,23 @@ Crashed(e) == HasF(e.post, "crash")
 V(v, subj, owner, msg) == [v |-> v, subj |-> subj, owner |-> owner, dev |-> "", fields |-> <<>>, frame |-> <<>>, msg |-> msg]
 Ok(subj) == V("ok", subj, "", "")
 Expect(cond, subj, owner, msg) == IF cond THEN Ok(subj) ELSE V("mismatch", subj, owner, msg)
+\* return values are compared tag first, so that a value of the wrong shape is a mismatch, not an evaluation error
+RetEq(a, b) == a.t = b.t /\ a.v = b.v
 
 JudgeStack(e, pre) ==
   LET subj == "stack." \o e.act.m IN
   IF Crashed(e) THEN V("crash", subj, "C16", e.post.msg)
   ELSE LET r == StackOp(e.act.elem, e.act.m, e.act.args, pre.s) IN
-       Expect(e.post.s = r.post /\ e.ret = r.ret, subj, "C16", "contents or return value differ from the plain sequence")
+       Expect(e.post.s = r.post /\ RetEq(e.ret, r.ret), subj, "C16", "contents or return value differ from the plain sequence")
 
 JudgeBuffer(e, pre) ==
   LET subj == "buffer." \o e.act.m IN
   IF Crashed(e) THEN V("crash", subj, "C17", e.post.msg)
   ELSE LET ri == RingOp(e.act.kind, e.act.m, e.act.args, pre)
            ab == AbsOp(e.act.kind, pre.cap, e.act.m, e.act.args, Live(pre))
-       IN IF ~(e.post = ri.post /\ e.ret = ri.ret)
+       IN IF ~(e.post = ri.post /\ RetEq(e.ret, ri.ret))
           THEN V("mismatch", subj, "C17", "differs from the ring implementation model (cursors / cells / return value)")
-          ELSE IF ~(Live(e.post) = ab.post /\ e.ret = ab.ret /\ RingInv(e.post))
+          ELSE IF ~(Live(e.post) = ab.post /\ RetEq(e.ret, ab.ret) /\ RingInv(e.post))
           THEN V("mismatch", subj, "C17", "differs from the abstract bounded sequence")
           ELSE Ok(subj)
 
@@ -63,7 +65,7 @@ JudgeGraph(e, pre) ==
   LET subj == "graph." \o e.act.m IN
   IF Crashed(e) THEN V("crash", subj, "C18", e.post.msg)
   ELSE LET r == GraphOp(e.act.m, e.act.args, pre) IN
-       IF ~(e.post = r.post /\ e.ret = r.ret) THEN V("mismatch", subj, "C18", "graphs or return value differ from the model")
+       IF ~(e.post = r.post /\ RetEq(e.ret, r.ret)) THEN V("mismatch", subj, "C18", "graphs or return value differ from the model")
        ELSE Expect(\A i \in 1..Len(e.post.gs) : GraphInv(e.post.gs[i]), subj, "C18", "structural invariant G1/G2 broken")
 
 \* topology functions
@@ -75,14 +77,14 @@ JudgeTopo(e) ==
   ELSE CASE e.act.m = "find_neighbors" ->
          LET r == a[4] IN
          IF FLt(r, FPosZero) \/ a[2] < 1 \/ a[1] < 1 \/ a[3] > a[1] \/ (a[2] >= 65 /\ a[1] >= 2)
-         THEN Expect(e.ret = RNone, subj, "C20", "invalid arguments must yield no neighbourhood")
+         THEN Expect(RetEq(e.ret, RNone), subj, "C20", "invalid arguments must yield no neighbourhood")
          ELSE LET nb == Neighbors(a[1], a[2], a[3], r) IN
               Expect(e.ret.t = "some" /\ ClassOK([c |-> "between", a |-> nb.lo, b |-> nb.hi], e.ret.v, <<>>),
                      subj, "C20", "neighbourhood differs from the Euclidean ball on the smallest enclosing hypercube")
        [] e.act.m = "decompose_index" ->
-         Expect(e.ret = RSome(Decompose(a[1], a[2], a[3])), subj, "C20", "coordinates differ")
+         Expect(RetEq(e.ret, RSome(Decompose(a[1], a[2], a[3]))), subj, "C20", "coordinates differ")
        [] e.act.m = "euclidean_distance" ->
-         IF Len(a[1]) # Len(a[2]) THEN Expect(e.ret = RNone, subj, "C20", "length mismatch must yield None")
+         IF Len(a[1]) # Len(a[2]) THEN Expect(RetEq(e.ret, RNone), subj, "C20", "length mismatch must yield None")
          ELSE LET d2 == Dist2(a[1], a[2])
                   rt == ISqrtUpTo(d2)
               IN Expect(e.ret.t = "some" /\ (rt * rt = d2 => e.ret.v = FFromInt(rt)), subj, "C20", "distance differs")
@@ -94,17 +96,17 @@ JudgeItem(e) ==
       m == e.act.m
   IN IF Crashed(e) THEN V("crash", subj, "C08", e.post.msg)
   ELSE Expect(
-       CASE m = "size" -> e.ret = RVal(Size(a[1]))
-         [] m = "shallow_size" -> e.ret = RVal(IF a[1].k = "list" THEN Len(a[1].v) + 1 ELSE 1)
-         [] m = "traverse" -> e.ret = (IF a[2] < Size(a[1]) THEN RSome(Extract(a[1], a[2])) ELSE RNone)
-         [] m = "insert" -> e.ret = (IF a[3] < Size(a[1]) THEN RSome(InsertPt(a[1], a[2], a[3])) ELSE [t |-> "none", v |-> a[1]])
-         [] m = "contains" -> Fuzzy(a[1]) \/ Fuzzy(a[2]) \/ e.ret = RVal(Position(a[1], a[2]))
+       CASE m = "size" -> RetEq(e.ret, RVal(Size(a[1])))
+         [] m = "shallow_size" -> RetEq(e.ret, RVal(IF a[1].k = "list" THEN Len(a[1].v) + 1 ELSE 1))
+         [] m = "traverse" -> RetEq(e.ret, IF a[2] < Size(a[1]) THEN RSome(Extract(a[1], a[2])) ELSE RNone)
+         [] m = "insert" -> RetEq(e.ret, IF a[3] < Size(a[1]) THEN RSome(InsertPt(a[1], a[2], a[3])) ELSE [t |-> "none", v |-> a[1]])
+         [] m = "contains" -> Fuzzy(a[1]) \/ Fuzzy(a[2]) \/ RetEq(e.ret, RVal(Position(a[1], a[2])))
          [] m = "container" -> Fuzzy(a[1]) \/ Fuzzy(a[2]) \/
-                               e.ret = (LET c == ContainerOf(a[1], a[2]) IN IF c.found THEN RSome(c.item) ELSE RNone)
-         [] m = "substitute" -> Fuzzy(a[1]) \/ Fuzzy(a[2]) \/ e.ret = RVal(Subst(a[1], a[2], a[3]))
-         [] m = "equals" -> Fuzzy(a[1]) \/ Fuzzy(a[2]) \/ e.ret = RVal(DeepEq(a[1], a[2]))
-         [] m = "shallow_eq" -> e.ret = RVal(ShallowEq(a[1], a[2]))
-         [] m = "to_string" -> Fuzzy(a[1]) \/ e.ret = RVal(PrintItem(a[1]))
+                               (LET c == ContainerOf(a[1], a[2]) IN RetEq(e.ret, IF c.found THEN RSome(c.item) ELSE RNone))
+         [] m = "substitute" -> Fuzzy(a[1]) \/ Fuzzy(a[2]) \/ RetEq(e.ret, RVal(Subst(a[1], a[2], a[3])))
+         [] m = "equals" -> Fuzzy(a[1]) \/ Fuzzy(a[2]) \/ RetEq(e.ret, RVal(DeepEq(a[1], a[2])))
+         [] m = "shallow_eq" -> RetEq(e.ret, RVal(ShallowEq(a[1], a[2])))
+         [] m = "to_string" -> Fuzzy(a[1]) \/ RetEq(e.ret, RVal(PrintItem(a[1])))
          [] OTHER -> FALSE,
        subj, "C08", "Item function differs from the depth-first point algebra")
 
@@ -131,25 +133,25 @@ JudgeGen(e) ==
   IN IF Crashed(e) THEN V("crash", subj, own, e.post.msg)
   ELSE Expect(
        CASE m = "random_code" ->
-              IF a[2] < 2 THEN e.ret = RNone
+              IF a[2] < 2 THEN RetEq(e.ret, RNone)
               ELSE e.ret.t = "some" /\ Size(e.ret.v) >= 1 /\ Size(e.ret.v) <= a[2] - 1 /\ ValidCode(e.ret.v, a[1])
                    /\ NamesOK(e.ret.v, a[3], a[4])
          [] m = "random_code_with_size" -> e.ret.t = "some" /\ Size(e.ret.v) = a[2] /\ ValidCode(e.ret.v, a[1])
                                            /\ NamesOK(e.ret.v, a[3], a[4])
          [] m = "decompose" -> e.ret.t = "some" /\ SumSeq(e.ret.v) = a[1] /\ \A i \in 1..Len(e.ret.v) : e.ret.v[i] >= 1
          [] m = "random_bool_vector" ->
-              IF a[1] < 0 \/ FIsNaN(a[2]) \/ FLt(a[2], FPosZero) \/ FGt(a[2], FOne) THEN e.ret = RNone
+              IF a[1] < 0 \/ FIsNaN(a[2]) \/ FLt(a[2], FPosZero) \/ FGt(a[2], FOne) THEN RetEq(e.ret, RNone)
               ELSE e.ret.t = "some" /\ Len(e.ret.v) = a[1] /\ TrueCountOK(e.ret.v, a[1], a[2])
          [] m = "random_int_vector" ->
-              IF a[1] < 0 \/ a[3] <= a[2] THEN e.ret = RNone
+              IF a[1] < 0 \/ a[3] <= a[2] THEN RetEq(e.ret, RNone)
               ELSE e.ret.t = "some" /\ Len(e.ret.v) = a[1] /\ \A i \in 1..Len(e.ret.v) : e.ret.v[i] >= a[2] /\ e.ret.v[i] < a[3]
          [] m = "random_float_vector" ->
-              IF a[1] < 0 \/ ~FIsFinite(a[3]) \/ FLt(a[3], FPosZero) THEN e.ret = RNone
+              IF a[1] < 0 \/ ~FIsFinite(a[3]) \/ FLt(a[3], FPosZero) THEN RetEq(e.ret, RNone)
               ELSE e.ret.t = "some" /\ Len(e.ret.v) = a[1]
                    /\ (FIsZero(a[3]) /\ FIsFinite(a[2]) => \A i \in 1..Len(e.ret.v) : FEq(e.ret.v[i], a[2]))
          \* args <<min, max>> mirror the configuration of the state the call ran in
-         [] m = "random_integer" -> IF a[1] < a[2] THEN e.ret.t = "some" /\ e.ret.v >= a[1] /\ e.ret.v < a[2] ELSE e.ret = RNone
-         [] m = "random_float" -> IF FLt(a[1], a[2]) THEN e.ret.t = "some" /\ ~FLt(e.ret.v, a[1]) /\ FLt(e.ret.v, a[2]) ELSE e.ret = RNone
+         [] m = "random_integer" -> IF a[1] < a[2] THEN e.ret.t = "some" /\ e.ret.v >= a[1] /\ e.ret.v < a[2] ELSE RetEq(e.ret, RNone)
+         [] m = "random_float" -> IF FLt(a[1], a[2]) THEN e.ret.t = "some" /\ ~FLt(e.ret.v, a[1]) /\ FLt(e.ret.v, a[2]) ELSE RetEq(e.ret, RNone)
          [] m = "random_float_many" -> \A i \in 1..Len(e.ret.v) : ~FLt(e.ret.v[i], a[1]) /\ FLt(e.ret.v[i], a[2])
          \* min is produced, max never (the number of draws makes a miss of min less likely than 1e-12)
          [] m = "random_integer_stats" -> IF a[1] < a[2] THEN e.ret.v.count = a[3] /\ e.ret.v.min = a[1] /\ e.ret.v.max = a[2] - 1
@@ -192,8 +194,10 @@ JudgeIds(e, pre) ==
                  /\ Cardinality(Range(all)) = Len(all)
                  /\ IdsMin(e) > prevmax,
                  "ids", "C14", "a graph node identifier was handed out twice (or not monotonically)")
+\* the first steps (up to the driver's cap) must agree; a program that ends within the cap must end on both sides
 JudgeCli(e) ==
-  IF Len(e.lib) >= 100000 THEN Ok("cli:diverges")
+  IF ~e.lib_done THEN Expect(e.cli = SubSeq(e.lib, 1, Len(e.cli)) \/ e.lib = SubSeq(e.cli, 1, Len(e.lib)), "cli", "C14",
+                             "the command-line front end and the library disagree on the stacks of some step (diverging program)")
   ELSE Expect(e.cli = e.lib /\ e.done, "cli", "C14", "the command-line front end and the library disagree on the stacks of some step")
 
 Judge(e, pre) ==
